@@ -385,6 +385,7 @@ pub fn migrate_native(old_challenged: bool, old_pending: bool, v4: bool, big_pee
     } else {
         assert!(prev.remote == old_remote && prev.total_sent == 2222, "the validated path was not kept as the path to return to");
         assert!(prev.challenge.is_some() && prev.challenge_pending);
+        assert!(prev.challenge != conn.path.challenge, "the old and the new address are challenged with the same token: the echo of one validates the other");
         2
     }
 }
@@ -1505,4 +1506,23 @@ pub fn new_idle_timeout_native(ms: u16) -> u32 {
         assert!(t >= now + Duration::from_millis(ms as u64), "idle timer earlier than the configured timeout");
         2
     }
+}
+
+/// Native replay body for the E2 query `e2_decrypt_packet_body_authentic_first` (C04 / C03): an established
+/// server receives a short-header packet with first byte `first` (0x48 / 0x50 / 0x58: reserved bits set) that
+/// does NOT authenticate.  Whatever its header says it must be dropped without effect: the connection stays
+/// open, nothing is counted as authenticated; an authentic packet afterwards is processed normally.
+pub fn unauthentic_packet_inert_native(first: u8) -> u32 {
+    let mut conn = mk_migratable_server();
+    let now = crate::verif::mk_instant(51, 0).unwrap();
+    let home = addr(1, 4433);
+    let mut v = vec![first | 0x40, 2, 2, 2, 2, 2, 2, 2, 2, 7, 0x01, 0, 0, 9]; // last byte 9: the stand-in AEAD (tag 0) refuses it
+    v[0] &= !0x80;
+    let (first_decode, remaining) = PartialDecode::new(BytesMut::from(&v[..]), &FixedLengthConnectionIdParser::new(8), &[1], true).ok().expect("decodes");
+    conn.handle_event(ConnectionEvent(ConnectionEventInner::Datagram(DatagramConnectionEvent { now, remote: home, ecn: None, first_decode, remaining })));
+    assert!(!conn.state.is_closed(), "a packet that failed authentication closed the connection");
+    assert!(conn.error.is_none() && conn.total_authed_packets == 0 && conn.stats.frame_rx.ping == 0, "a packet that failed authentication had an effect");
+    deliver_short(&mut conn, now, home, 8, &[0x01]);
+    assert!(conn.total_authed_packets == 1 && conn.stats.frame_rx.ping == 1 && !conn.state.is_closed(), "an authentic packet was not processed");
+    1
 }
